@@ -48,6 +48,16 @@ CHECKS = {
              "whole-line, in-order, content-equal, nothing for unserialisable items, stdin closed after the stream is closed and drained.",
         note="Trusts: the modelled drain/high-water semantics of asyncio's StreamWriter; fault family is judged on whole lines only.",
         technique=TECH + "; back-pressure and child-death injection at the process seam, reference-encoder oracle"),
+    "C13": dict(
+        level="exploration", ref="DESIGN.md section 5 C13",
+        text="The real stdio reader + BatchProcessor run on a FakeProcess; the version comes from a simulated handshake or the setter, drawn "
+             "from strata {none, supported, cutoff +-1 day/month/year, any dddd-dd-dd in 1990..2199}, and changes mid-connection at instants "
+             "around batch arrivals. Oracle: independent (y,m,d) < (2025,6,18) mode model that must also agree with supports_batching and "
+             "ProtocolVersion.compare (monotone); rejected batch = exactly one -32600 line on the child's stdin and no member delivered; accepted "
+             "batch = every valid member in order, invalid members (10 classes incl. nested arrays) dropped alone. The 2.1M-string grid is "
+             "sampled, not exhausted (exhaustion is a different technique).",
+        note="Trusts: the pipe model; same-instant version change accepts both modes for that line.",
+        technique=TECH + "; version changes injected mid-connection, reference mode model"),
     "C14": dict(
         level="exploration", ref="DESIGN.md section 5 C14",
         text="Seeded search over placements of {token cancel, matching response, deadline} on a ~1 ms virtual grid around poll edges, with "
